@@ -286,10 +286,15 @@ func (p *Program) IsRepoFunc(fn *ssa.Function) bool {
 			pk = f.Origin().Package()
 		}
 	}
-	if pk == nil {
+	path := ""
+	if pk != nil {
+		path = pk.Pkg.Path()
+	} else if obj := fn.Object(); obj != nil && obj.Pkg() != nil {
+		// synthetic wrappers / bound-method closures of promoted methods
+		path = obj.Pkg().Path()
+	} else {
 		return false
 	}
-	path := pk.Pkg.Path()
 	return strings.HasPrefix(path, ModPrefix) || strings.HasPrefix(path, "jtverifcontrols")
 }
 
